@@ -253,8 +253,12 @@ NextCat(cat, files, e, h) ==
                     [id \in DOMAIN @ \cup {DocId(e.docs[1])} |-> IF id = DocId(e.docs[1]) THEN e.docs[1] ELSE @[id]]])
       [] e.op = "ReplaceById" ->
             PutColl(cat, e.c, [cat[e.c] EXCEPT !.docs[e.id] = e.docs[1]])
+      \* one contract for updaters, whichever operation runs them: returning nil deletes the document
       [] e.op = "UpdateById" ->
-            PutColl(cat, e.c, [cat[e.c] EXCEPT !.docs[e.id] = ApplyUpd(cat[e.c].docs[e.id], e.upd)])
+            LET nd == ApplyUpd(cat[e.c].docs[e.id], e.upd) IN
+            IF nd = Absent
+            THEN PutColl(cat, e.c, [cat[e.c] EXCEPT !.docs = [id \in DOMAIN @ \ {e.id} |-> @[id]]])
+            ELSE PutColl(cat, e.c, [cat[e.c] EXCEPT !.docs[e.id] = nd])
       [] e.op \in {"Update", "UpdateFunc"} -> BulkNext(cat, QueryOf(e), e.upd, h.sel)
       [] e.op = "Delete" -> BulkNext(cat, QueryOf(e), <<"nil">>, h.sel)
       [] e.op = "DeleteById" ->
